@@ -234,7 +234,8 @@ class Sim(object):
         self.final_blocked = []
         self.final_stacks = {}
         self._run_len = 0
-        self.fair_bound = 400
+        self.fair_bound = 400      # consecutive sync ops before a forced round-robin switch
+        self.spin_bound = 20000    # ... by a lone runnable thread, without ever blocking: a spin
         self.fair_switches = 0
         self.spin_jumps = 0
 
@@ -485,7 +486,7 @@ class Sim(object):
             # synchronisation operations while others sit in timed waits lets the clock reach
             # the earliest of those timers (deterministic, not a scheduling decision).
             self._run_len += 1
-            if self._run_len > self.fair_bound:
+            if self._run_len > self.spin_bound:
                 self._run_len = 0
                 timed = [t for t in self.threads if t.status == BLOCKED and t.deadline is not None]
                 if timed:
@@ -560,6 +561,7 @@ class Sim(object):
 
     def _dispatch(self, me):
         """`me` is blocked or done: pick someone to run (possibly `me` after a timeout)."""
+        self._run_len = 0
         self.step += 1
         if self.step > self.step_cap:
             self._end("step-cap")
